@@ -57,6 +57,8 @@ class Sim:
         self.cur = None
         self.step = 0
         self.preempt = set(preempt)
+        self.preempt_lines = {}   # (file basename, line) -> occurrence to pre-empt at (0 = every occurrence)
+        self.line_hits = {}
         self.noise = noise
         self.max_steps = max_steps
         self.repo_prefix = repo_prefix
@@ -197,14 +199,22 @@ class Sim:
             t.wait_join = None
 
     # -- line pre-emption --------------------------------------------------
-    def on_line(self):
+    def on_line(self, loc=None):
         if _real_threading.get_ident() != self.cur.real_ident:
             return
         self.step += 1
         if self.step > self.max_steps:
             self.aborted = self.aborted or "max_steps"
             raise SimAbort("line budget")
-        if self.step in self.preempt or (self.noise and self.rng.random() < self.noise):
+        hit = False
+        if self.preempt_lines and loc is not None and loc in self.preempt_lines:
+            # location-keyed pre-emption: a source line chosen uniformly over LINES (not over executed steps), so a line
+            # that runs once per drain (a `finally:` block, a lock release) is as likely a switch point as a hot loop line
+            n = self.line_hits.get(loc, 0) + 1
+            self.line_hits[loc] = n
+            want = self.preempt_lines[loc]
+            hit = want == 0 or n == want
+        if hit or self.step in self.preempt or (self.noise and self.rng.random() < self.noise):
             if len([t for t in self.threads if t.state == RUNNABLE and not t.quiescent_wait]) > 1:
                 self.preempts_done += 1
                 self.yield_now(forced_other=True)
